@@ -139,6 +139,35 @@ func minimise(bin string, orig *spec.RunSpec, prop, sig string, wall time.Durati
 				progress = true
 			}
 		}
+		if cur.Attack != nil {
+			for i := len(cur.Attack.Probes) - 1; i >= 0; i-- {
+				i := i
+				if try(func(s *spec.RunSpec) bool {
+					if s.Attack == nil || i >= len(s.Attack.Probes) {
+						return false
+					}
+					s.Attack.Probes = append(s.Attack.Probes[:i], s.Attack.Probes[i+1:]...)
+					return true
+				}) {
+					progress = true
+				}
+			}
+			for i := range cur.Attack.Probes {
+				i := i
+				for cur.Attack.Probes[i].Count > 1 {
+					if !try(func(s *spec.RunSpec) bool {
+						if i >= len(s.Attack.Probes) || s.Attack.Probes[i].Count <= 1 {
+							return false
+						}
+						s.Attack.Probes[i].Count /= 2
+						return true
+					}) {
+						break
+					}
+					progress = true
+				}
+			}
+		}
 		// 4. per client simplifications
 		for ci := range cur.Clients {
 			ci := ci
